@@ -93,6 +93,27 @@ class TreeGen:
         return [self.group(self.rng.randint(0, self.max_depth)) for _ in range(self.rng.randint(1, min(3, self.max_branch)))]
 
 
+def assign_line_indexes(spec: List[Dict], rng) -> None:
+    """maus' optional ahb_line_index on every group and segment, as when a deep AHB is built from a flat one: in a flat AHB a group's own
+    segments come BEFORE its sub-groups, so the index order differs from the order in which validation has to report the nodes"""
+    counter = [rng.randrange(0, 50)]
+
+    def grp(g):
+        counter[0] += rng.randint(1, 3)
+        g["line"] = counter[0]
+        for s in g["segs"]:
+            counter[0] += rng.randint(1, 3)
+            s["line"] = counter[0]
+        for x in g["grps"]:
+            grp(x)
+
+    order = list(spec)
+    if rng.random() < 0.5:
+        rng.shuffle(order)  # top level lines numbered in another order than they are listed
+    for g in order:
+        grp(g)
+
+
 def walk(spec: List[Dict]) -> Iterator[Dict]:
     """all nodes in document order: a group, then its sub-groups, then its segments each followed by its data elements"""
 
